@@ -14,9 +14,12 @@
 #include "vjson.hpp"
 #include "vguard.hpp"
 using namespace rtosc;
-struct Obj { int i; int n; float f; float l; bool t; };
+struct Obj { int i; int n; float f; float l; bool t; float fx; bool ty; };
 #define rObject Obj
 static const Ports ports = {
+    // look-alikes: ports whose names merely START with the name of a bound parameter, declared before it, with another type / range
+    rParamF(fx, rLinear(0, 1), "look-alike of f"),
+    rParamI(ty, rLinear(0, 9), "look-alike of t"),
     rParamI(i, rLinear(0, 127), "int"),
     rParamI(n, rLinear(-64, 63), "int"),
     rParamF(f, rLinear(-2.5, 10.25), "float"),
@@ -27,7 +30,7 @@ static const Ports ports = {
 static const int NS = 4, PS = 2;
 struct World {
     alignas(16) unsigned char mem[sizeof(AutomationMgr)]; AutomationMgr *m; std::vector<std::string> out;
-    World() { memset(mem, 0, sizeof mem); m = new (mem) AutomationMgr(NS, PS, 4); m->set_ports(ports); m->backend = [this](const char *msg) { out.push_back(std::string(msg, rtosc_message_length(msg, 256))); }; }
+    World() { static int nworld = 0; memset(mem, (nworld++ % 2) ? 0x55 : 0, sizeof mem); /* alternating fill patterns: what the object forgets to initialise must not matter */ m = new (mem) AutomationMgr(NS, PS, 4); m->set_ports(ports); m->backend = [this](const char *msg) { out.push_back(std::string(msg, rtosc_message_length(msg, 256))); }; }
     ~World() { m->~AutomationMgr(); }
     void observe(JW &w) {
         w.key("out").arr();
@@ -78,8 +81,6 @@ int main(int argc, char **argv) {
             int sig = vg_run(20, [&] { for (int k = 0; k < n; ++k) { int r = (int)(rng() % 14); J j;
                 if (r >= 12) {   // a complete NRPN (parameter (hi, lo), value with equal halves) - where the statement speaks: no slot may be waiting while the
                     // message is being assembled (the code would hand the half-assembled message to the learner); a learn request may arrive before the last part
-                    bool waiting = false; for (int q = 0; q < NS; ++q) if (wd.m->slots[q].learning > 0) waiting = true;
-                    if (waiting) continue;
                     int hi = rng() % 3 ? 0 : 127, lo = rng() % 2 ? 127 : 0, v = rng() % 2 ? 127 : 0; static const int T[3] = {99, 98, 6}; int vals[3] = {hi, lo, v};
                     for (int q = 0; q < 3; ++q) { J n = mk("nrpn"); addn(n, "type", T[q]); addn(n, "val", vals[q]); wd.step(n, ev); }
                     if (rng() % 2) { J c = mk("create"); addn(c, "s", 1 + rng() % NS); add(c, "p", P[rng() % 5]); addb(c, "learn", true); wd.step(c, ev); }
